@@ -85,7 +85,7 @@ Adopt(ev, d) ==      \* take over observed data so that later clauses are still 
     /\ fbNT' = IF "fb" \in d THEN [k \in DOMAIN fbNT |-> ev.fb[k]] ELSE fbNT
     /\ smReq' = IF "smstate" \in d THEN [c \in sh.sm |-> IF c = ev.o THEN ev.st = "go" ELSE smReq[c]] ELSE smReq
     /\ autoT0' = IF "arg" \in d THEN now' - ev.arg ELSE autoT0
-    /\ UNCHANGED <<sh, ds, fms, exit, selStr, pc, mode, todo, fbleft, en, nsetup, active, iterNo, mIter,
+    /\ UNCHANGED <<sh, ds, dsNew, fms, exit, selStr, pc, mode, todo, fbleft, en, nsetup, active, iterNo, mIter,
                    nfault, swallowed>>
 
 (* ---- monitors: predicates over the recorded events only (no specification state), so that they keep
